@@ -131,4 +131,6 @@ def nontrivial(c, r):
 
 
 def oracle(c, impl_res):
+    if c.cmd == "DECS" and "bigbuf" in c.tags:
+        return None  # the oracle's answer parser is for single results; these streams are decided by the correspondence with the model
     return ("ORC", "C04 %s %s" % (c.args, impl_res))
